@@ -121,6 +121,24 @@ def run(ctx):
                     if bad:
                         res.violations.append({"clause": "ndim cost matrix cell-wise optimal", "engine": eng,
                                                "case": case, "bad_cells": bad[:5]})
+                # the wrappers called with their DEFAULT arguments (psi_neg): same marks as the univariate / generic routes
+                if any(dc.psi_tuple(case.get("psi"))) and not case.get("max_dist_I"):
+                    mats = {}
+                    for nm_, fn_ in (("dtw_ndim.warping_paths", lambda: dtw_ndim.warping_paths(s1, s2, keep_int_repr=True, **kw)),
+                                     ("dtw_ndim.warping_paths_fast", lambda: dtw_ndim.warping_paths_fast(s1, s2, keep_int_repr=True, **kw)),
+                                     ("dtw.warping_paths_fast(use_ndim)", lambda: dtw.warping_paths_fast(s1, s2, keep_int_repr=True, use_ndim=True, **kw))):
+                        r_ = call(fn_)
+                        mats[nm_] = None if isinstance(r_, str) else np.array(r_[1], dtype=float)
+                    res.hit("default_psi_neg_marks")
+                    ref_ = mats["dtw.warping_paths_fast(use_ndim)"]
+                    for nm_, m_ in mats.items():
+                        if m_ is None or ref_ is None:
+                            continue
+                        if out["spec"] != "inf" and ((m_ == -1) != (ref_ == -1)).any():
+                            res.violations.append({"clause": "ndim cost matrix: cells skipped by the end relaxation are "
+                                                             "marked -1 by default, as in the generic routine", "route": nm_,
+                                                   "case": case, "marks": np.argwhere(m_ == -1).tolist(),
+                                                   "marks_reference": np.argwhere(ref_ == -1).tolist()})
                 if out["spec"] != "inf":
                     pth = call(lambda: dtw_ndim.warping_path(s1, s2, **kw))
                     if isinstance(pth, str):
